@@ -15,8 +15,9 @@ def rand_name(rng, allow_empty=True):
     return ''.join(rng.choice(NAME_ALPHABET) for _ in range(n))
 
 
-def rand_text(rng):
-    return ''.join(rng.choice(TEXT_ALPHABET) for _ in range(rng.choice([0, 1, 2, 5, 12])))
+def rand_text(rng, nul=False):
+    alphabet = TEXT_ALPHABET + ['\x00', '\x00'] if nul else TEXT_ALPHABET
+    return ''.join(rng.choice(alphabet) for _ in range(rng.choice([0, 1, 2, 5, 12])))
 
 
 def rand_dt(rng):
@@ -126,10 +127,10 @@ def rand_data(rng, kind, n):
         vals = [rng.uniform(-1e3, 1e3) for _ in range(n)]
         return DataSpec(vals, kind, np.array(vals, dtype='f8'), ('exact', np.dtype('f8')) if n else ('any', None))
     if kind == 'strlist':
-        vals = [rand_text(rng) for _ in range(n)]
+        vals = [rand_text(rng, nul=True) for _ in range(n)]      # lists and object arrays keep NUL characters (compared as Python lists)
         return DataSpec(vals, kind, vals, ('object', None) if n else ('any', None))
     if kind == 'strarray':
-        vals = [rand_text(rng) for _ in range(n)]
+        vals = [rand_text(rng, nul=True) for _ in range(n)]
         arr = np.array(vals, dtype=object) if n else np.empty(0, dtype=object)
         return DataSpec(arr, kind, vals, ('object', None) if n else ('any', None))
     if kind == 'tsarray':
